@@ -291,6 +291,16 @@ def run(ctx, prop):
         else:
             other.append("%s: %s" % (p, what[:200]))
 
+    # ------------------------------------------------------------------ replay of an OTLP carry-through case
+    rc0 = ctx.replay_case()
+    if isinstance(rc0, dict) and ("otlp_flush" in rc0 or "otlp_bounded" in rc0):
+        from checks import otlp_common
+        if "otlp_flush" in rc0:
+            otlp_common.otlp_flush_phase(ctx, only=rc0["otlp_flush"])
+        else:
+            otlp_common.otlp_bounded_phase(ctx, only=rc0["otlp_bounded"])
+        return
+
     # ------------------------------------------------------------------ C07: flush through combinators
     if prop == "C07" and ctx.replay_case() is None:
         flush_trees(ctx)
@@ -298,10 +308,17 @@ def run(ctx, prop):
         # rolling files over an injected filesystem with faults and stalls (FileEmitterTrace.tla)
         from checks import fileset_common
         fileset_common.file_emitter_phase(ctx, "C07", clauses=("flush",))
+        # ... and to OTLP: a flush that returned true => every event emitted before it is in an
+        # acknowledged request (OtlpTrace.tla decides recorded runs)
+        from checks import otlp_common
+        otlp_common.otlp_flush_phase(ctx)
     if prop == "C09" and ctx.replay_case() is None:
         unbounded_bound(ctx)
         from checks import fileset_common
         fileset_common.file_emitter_phase(ctx, "C09", clauses=("bounded",))
+        # the OTLP emitter's own Channel implementation obeys the same bound (OtlpChan.tla)
+        from checks import otlp_common
+        otlp_common.otlp_bounded_phase(ctx)
 
     # ------------------------------------------------------------------ the unbounded ledger
     if ctx.replay_case() is None:
